@@ -41,14 +41,14 @@ func init() {
 		"all strings over the grammar's token characters plus one character the lexer answers with an unknown token code, up to length 4 (quick) / 5 (thorough)",
 	}
 	registerGen("C08", "conformance corpus (families, every rule set of G(2,2,2,<=2) and G(1,2,3,<=2), fixed-stride selection of the tier classes) x {go, go -u, go -o, go -o -u, typescript} x all strings up to the bound: verdict class, reduction sequence and value must be pairwise equal; non-trivial = grammar with at least one accepted string; distinct = distinct rule sets", common)
-	registerGen("C07", "corpus grammars x union-field assignments (all string, all int, each single symbol switched to int / to untagged) x action shapes (all $i, only $1, only $n, no action) x all accepted strings up to the bound x {go, go -o -u, typescript}: the value returned by Parser() must equal bottom-up evaluation of the harness-chosen actions over the parser's own (derivation-checked) reductions; token values encode character and position, rule values encode rule number and argument order, so a wrong slot or field changes the result; non-trivial = (grammar, assignment, shape) with at least one accepted string", common)
+	registerGen("C07", "corpus grammars x union-field assignments (all string, all int, each single symbol switched to int / to untagged) x action shapes (all $i, only $1, only $n, no action, alternately assigning/not assigning $$, plain `$$ = $1` copies sharing one action text) x all accepted strings up to the bound x {go, go -o -u, typescript}: the value returned by Parser() must equal bottom-up evaluation of the harness-chosen actions over the parser's own (derivation-checked) reductions; token values encode character and position, rule values encode rule number and argument order, so a wrong slot or field changes the result; non-trivial = (grammar, assignment, shape) with at least one accepted string", common)
 	registerGen("C17", "corpus x Go variants (global and -o, packed and -u) with IsTrace = true x all strings up to the bound (rejected ones up to the error): the stdout lines must be, in order, exactly the lines predicted from the model run and the SPECIFICATION's rule text and symbol names (one `Shift X, push state q` per shift and per goto, one `look ahead L, use Reduce:A -> alpha, go to state q` per reduction), and the reductions named must be the reductions executed by the actions", common)
 }
 
 // c07Corpus expands a part of the corpus with tag assignments and action shapes.
 func c07Corpus(w *Worker, base []*genCase) []*genCase {
 	var out []*genCase
-	stride := 6
+	stride := 9
 	if w.Thorough() {
 		stride = 1
 	}
@@ -70,20 +70,42 @@ func c07Corpus(w *Worker, base []*genCase) []*genCase {
 			alln[s] = "n"
 		}
 		add(alln, gen.UseAll)
+		full := fam || w.Thorough() // quick: class grammars get a reduced list
 		for _, s := range syms {
 			for _, tag := range []string{"n", ""} {
+				if tag == "" && !full {
+					continue
+				}
 				t := gen.Tags{}
 				for k, v := range alls {
 					t[k] = v
 				}
 				t[s] = tag
 				add(t, gen.UseAll)
+				if tag == "n" {
+					add(t, gen.PlainCopy)
+				}
 			}
 		}
-		add(alls, gen.UseFirst)
-		add(alls, gen.UseLast)
-		add(alln, gen.UseLast)
-		add(alls, gen.NoAction)
+		// nonterminals int, terminals string (and the converse)
+		for _, flip := range []bool{false, true} {
+			t := gen.Tags{}
+			for _, s := range c.Spec.Terminals() {
+				t[s] = map[bool]string{false: "s", true: "n"}[flip]
+			}
+			for _, s := range c.Spec.Nonterminals() {
+				t[s] = map[bool]string{false: "n", true: "s"}[flip]
+			}
+			add(t, gen.PlainCopy)
+		}
+		add(alls, gen.Mixed)
+		add(alln, gen.Mixed)
+		if full {
+			add(alls, gen.UseFirst)
+			add(alls, gen.UseLast)
+			add(alln, gen.UseLast)
+			add(alls, gen.NoAction)
+		}
 	}
 	if w.Shard == 0 {
 		w.Count("c07_base_grammars", int64(n))
